@@ -130,9 +130,16 @@ def main(argv=None):
 
     # 2. main stream
     def on_result(case, res):
-        agg["evaluations"] += 1
+        units = res.get("units")
+        agg["evaluations"] += units if units is not None else 1
         key = case_hash(case)
-        agg["all_keys"].add(key)
+        if units is None:
+            agg["all_keys"].add(key)
+        else:
+            agg["all_keys"].update(res.get("unit_keys", []))
+            agg["nontrivial_keys"].update(res.get("nontrivial_keys", []))
+            nv_ = len(res.get("violations", []))
+            agg["held"] += max(0, units - nv_ - (0 if nv_ else 1))
         verdict = res.get("verdict", "inconclusive")
         for k_, v_ in (res.get("obs") or {}).items():
             if isinstance(v_, (int, float)):
@@ -163,7 +170,13 @@ def main(argv=None):
                 agg["known_hits"][kf["key"]] = agg["known_hits"].get(kf["key"], 0) + 1
             else:
                 new.append(v)
-        if new:
+        if new and units is not None:
+            # batch result: every violation carries its own single-unit replay case
+            for v in new:
+                agg["violated"] += 1
+                rc_ = v.get("replay_case", case)
+                agg["violations"].append({"case": rc_, "result": {"verdict": "violated", "violations": [v]}, "mechs": [str(v.get("mech"))]})
+        elif new:
             agg["violated"] += 1
             agg["violations"].append({"case": case, "result": res, "mechs": sorted({str(v.get("mech")) for v in new})})
         else:
